@@ -322,6 +322,19 @@ async function check (leaf, resps) {
     const old = inp.comment.trim().replace(/^\/\/|^\/\*|\*\/$/g, '').trim()
     if (body.includes(old) && !LOOKALIKES[pick.look]('x').length) v('old-comment-survives', inp.ref.block ? 'block' : 'line', 'the superseded sourceMappingURL comment is still present in the content')
   }
+  // generated sequences with comments kept: the effective (last) reference is gone, every other comment of the
+  // input - earlier references and ordinary comments - is still there, once
+  if (pick.seq && pick.comments) {
+    const kinds = pick.seq.map((x) => x.split('|')[0])
+    const lastRef = kinds.map((k) => !SEQ_KINDS[k].notRef).lastIndexOf(true)
+    const count = (re) => (body.match(re) || []).length
+    const wantRefs = kinds.filter((k, i) => !SEQ_KINDS[k].notRef && i !== lastRef).length
+    const gotRefs = count(/sourceMappingURL=/g)
+    if (gotRefs !== wantRefs) v('reference-comments-kept', gotRefs > wantRefs ? 'too-many' : 'too-few', `content (minus trailer) holds ${gotRefs} sourceMappingURL comment(s); of the ${wantRefs + 1} of the input only the last, superseded one must go`)
+    const wantPlain = kinds.filter((k) => k === 'plain').length
+    const gotPlain = count(/just a comment/g)
+    if (gotPlain !== wantPlain) v('ordinary-comment-lost', gotPlain > wantPlain ? 'duplicated' : 'lost', `content holds ${gotPlain} ordinary comment(s), the input has ${wantPlain}`)
+  }
   if (res.violations.length) res.outcome = 'violation'
   res.sample = { leaf: leaf.key, outcome: res.outcome }
   return res
